@@ -133,14 +133,15 @@ def run(ctx):
   ev = []
   tol = intern.Tolerant(rtol=2e-5, atol=2e-6)
   R = island.R
-  for i in range(12 if big else 3):
+  for i in range(12 if big else 4):
     c = None
     while c is None:
       c = island.random_instance(rng, fedjax, leaves=2, dyadic=True, allow_momentum=False, max_clients=4, rounds=1)
     c['inst']['cohorts'] = [list(range(1, len(c['inst']['data']) + 1))]
     sizes = [len(d) for d in c['inst']['data']]
     geoms = [(1, 1), (2, 1), (3, 2), (4, 3), (7, 1), (8, 4)] if big else [(1, 1), (3, 2), (8, 4)]
-    dom = lambda ci, j: (ci + j) % 2
+    # every second instance: no example of domain 1 in the whole cohort (its mean loss is 0/0 unless guarded)
+    dom = (lambda ci, j: (ci + j) % 2) if i % 2 == 0 else (lambda ci, j: 0)
     for (bs, bk) in geoms:
       for reg_lam in (0.0, 0.5):
         name = f'instance {i} sizes {sizes}'
@@ -157,7 +158,7 @@ def run(ctx):
         st, _ = alg.apply(alg.init(island.params_tree(c['inst']['init'])), [(ids[k], dss[k], keys[k]) for k in range(len(dss))])
         ev.append({'e': 'Call', 'key': f'agnostic domain weights and params after a round ({name}, regulariser {reg_lam})',
                    'out': tol((np.asarray(st.domain_weights), island.params_list(st.params)))})
-        ev.append({'e': 'Fact', 'name': 'AgnosticFinite', 'about': f'{name} geometry {(bs, bk)}', 'holds': bool(np.all(np.isfinite(np.asarray(st.domain_weights))))})
+        ev.append({'e': 'Fact', 'name': 'AgnosticFinite', 'about': f'{name} geometry {(bs, bk)}', 'holds': bool(np.all(np.isfinite(np.asarray(st.domain_weights))) and np.all(np.isfinite(island.params_list(st.params))))})
         # HypCluster assignment
         ale = models.AverageLossEvaluator(island.per_example_loss, reg)
         p0 = island.params_tree(c['inst']['init'])
